@@ -695,3 +695,205 @@ Proof.
     exists k', mid, ev, rest', r'. split; [exact Hd|]. split; [exact HB'|]. split; [exact Hmid|].
     split; [exact Hev|]. split; [exact Heq|]. rewrite Hf1 in Hle. rewrite Hfl. exact Hle.
 Qed.
+
+(* a Read that leaves the Reader between two fragments has used up the frame *)
+Lemma rat_eof_none data r2 d r' : rat_eof data r2 = ((d, None), r') -> r_rawN r' = 0.
+Proof.
+  unfold rat_eof. destruct (negb (r_rawN r2 =? 0)); [discriminate|].
+  destruct (st_fragmented (r_state r2)); [intros H; injection H as _ <-; reflexivity|].
+  destruct (_ && _); discriminate.
+Qed.
+
+Lemma rgo_rawN k r d r' : wf_src (r_src r) -> 0 < k -> r_frame r = true ->
+  rgo k r = ((d, None), r') -> r_frame r' = false -> r_rawN r' = 0.
+Proof.
+  intros Hw Hk Hfr. unfold rgo. pose proof (frame_read_gen k r Hw Hk) as G.
+  destruct (frame_read k r) as [[data e] r2]. destruct G as (_ & Hfr2 & _).
+  destruct e as [e|].
+  - destruct e as [[| |]| | | | | | | |]; try discriminate. intros H _. exact (rat_eof_none _ _ _ _ H).
+  - destruct (negb (r_rawN r2 =? 0)).
+    + intros H Hf. injection H as _ <-. rewrite Hfr2, Hfr in Hf. discriminate Hf.
+    + intros H _. exact (rat_eof_none _ _ _ _ H).
+Qed.
+
+(* ------------------------------------------------------------------ the monitor of the pattern loop *)
+(* [spec] = the spec's events, [obs] = what the loop logged. Every intermediate
+   control event must be there; of the messages (the events that are not
+   intermediate) the next action of the pattern decides: read = there,
+   discarded = not there, half-read = there exactly when the single Read
+   finished it (either is accepted). Nothing else may be there. *)
+Fixpoint pat_match (pat all : list ract) (spec obs : list event) : bool :=
+  match spec with
+  | [] => match obs with [] => true | _ => false end
+  | e :: spec' =>
+    if ev_inter e then
+      match obs with o :: obs' => ev_matches e o && pat_match pat all spec' obs' | [] => false end
+    else
+      match fst (next_act pat all) with
+      | ARead =>
+        match obs with o :: obs' => ev_matches e o && pat_match (snd (next_act pat all)) all spec' obs' | [] => false end
+      | ADiscard => pat_match (snd (next_act pat all)) all spec' obs
+      | APartial =>
+        match obs with o :: obs' => ev_matches e o && pat_match (snd (next_act pat all)) all spec' obs' | [] => false end
+        || pat_match (snd (next_act pat all)) all spec' obs
+      end
+  end.
+
+Definition pat_monitor (c : rcfg) (pat : list ract) (fs : list sframe) (evs : list event) (e : rerror) : bool :=
+  match e with RIo EEOF => true | _ => false end &&
+  pat_match pat pat (sr_events (spec_run c 0 None [] fs)) evs.
+
+(* the loop so far: whatever follows, matching the rest from pattern position
+   [pat] makes the whole match from the initial pattern [pat0] *)
+Definition PM (all pat0 : list ract) (evs lg : list event) (pat : list ract) : Prop :=
+  forall spec' obs', pat_match pat all spec' obs' = true -> pat_match pat0 all (evs ++ spec') (lg ++ obs') = true.
+
+Lemma ev_matches_refl e : ev_matches e e = true.
+Proof. unfold ev_matches. rewrite N.eqb_refl, bytes_eqb_refl, !eqb_reflx. reflexivity. Qed.
+
+Lemma PM_inter all pat0 pat mid : all_inter mid -> forall evs lg,
+  PM all pat0 evs lg pat -> PM all pat0 (evs ++ mid) (lg ++ mid) pat.
+Proof.
+  induction 1 as [|e mid He _ IH]; intros evs lg H.
+  - rewrite !app_nil_r. exact H.
+  - replace (evs ++ e :: mid) with ((evs ++ [e]) ++ mid) by (rewrite <- app_assoc; reflexivity).
+    replace (lg ++ e :: mid) with ((lg ++ [e]) ++ mid) by (rewrite <- app_assoc; reflexivity).
+    apply IH. intros spec' obs' Hp. rewrite <- !app_assoc. cbn [app]. apply H.
+    cbn [pat_match]. rewrite He, ev_matches_refl, Hp. reflexivity.
+Qed.
+
+Lemma PM_read all pat0 pat evs lg e o : fst (next_act pat all) = ARead -> ev_inter e = false ->
+  ev_matches e o = true -> PM all pat0 evs lg pat ->
+  PM all pat0 (evs ++ [e]) (lg ++ [o]) (snd (next_act pat all)).
+Proof.
+  intros Ha He Hm H spec' obs' Hp. rewrite <- !app_assoc. cbn [app]. apply H.
+  cbn [pat_match]. rewrite He, Ha, Hm, Hp. reflexivity.
+Qed.
+
+Lemma PM_discard all pat0 pat evs lg e : fst (next_act pat all) = ADiscard -> ev_inter e = false ->
+  PM all pat0 evs lg pat -> PM all pat0 (evs ++ [e]) lg (snd (next_act pat all)).
+Proof.
+  intros Ha He H spec' obs' Hp. rewrite <- !app_assoc. cbn [app]. apply H.
+  cbn [pat_match]. rewrite He, Ha. exact Hp.
+Qed.
+
+Lemma PM_partial_fin all pat0 pat evs lg e o : fst (next_act pat all) = APartial -> ev_inter e = false ->
+  ev_matches e o = true -> PM all pat0 evs lg pat ->
+  PM all pat0 (evs ++ [e]) (lg ++ [o]) (snd (next_act pat all)).
+Proof.
+  intros Ha He Hm H spec' obs' Hp. rewrite <- !app_assoc. cbn [app]. apply H.
+  cbn [pat_match]. rewrite He, Ha, Hm, Hp. reflexivity.
+Qed.
+
+Lemma PM_partial_skip all pat0 pat evs lg e : fst (next_act pat all) = APartial -> ev_inter e = false ->
+  PM all pat0 evs lg pat -> PM all pat0 (evs ++ [e]) lg (snd (next_act pat all)).
+Proof.
+  intros Ha He H spec' obs' Hp. rewrite <- !app_assoc. cbn [app]. apply H.
+  cbn [pat_match]. rewrite He, Ha, Hp. apply orb_true_r.
+Qed.
+
+(* ------------------------------------------------------------------ the loop *)
+Lemma drive_pat_spec c bufs all pat0 : wf_cfg c -> forall fuel fs pat k evs lg r,
+  Bnd c None lg fs r -> sr_out (spec_run c k None evs fs) = OClean ->
+  (length (wire fs) + 2 <= fuel)%nat -> PM all pat0 evs lg pat ->
+  dr_err (drive_pat fuel bufs pat all r) = RIo EEOF /\
+  pat_match pat0 all (sr_events (spec_run c k None evs fs)) (dr_events (drive_pat fuel bufs pat all r)) = true.
+Proof.
+  intros Hc. induction fuel as [|fuel IH]; intros fs pat k evs lg r HB Hclean Hfuel HPM; [lia|].
+  cbn [drive_pat]. destruct fs as [|f rest].
+  - destruct (next_frame_eof c None lg r HB) as (h & r' & Hnf & Hlg). rewrite Hnf. cbn [is_some dr_err dr_events].
+    rewrite spec_run_nil, Hlg. cbn [sr_events]. split; [reflexivity|].
+    specialize (HPM [] [] eq_refl). rewrite !app_nil_r in HPM. exact HPM.
+  - pose proof (b_src _ _ _ _ _ HB) as (_ & _ & Hfl).
+    destruct (next_frame_spec c None lg f rest r Hc HB) as (h & e & r1 & Hnf & H). rewrite Hnf.
+    destruct e as [err|].
+    { exfalso. destruct H as (_ & Hsp). destruct (Hsp k evs) as (out & Heq & _ & _ & Hnc).
+      rewrite Heq in Hclean. apply Hnc, Hclean. }
+    destruct H as (Hlen & [(m0 & Hm0 & _)|(Hop & HM & Hsp)]); [discriminate|].
+    rewrite Hfl in Hlen. cbn [msg_of] in *. rewrite Hsp in Hclean |- *.
+    set (m := (sf_op f, @nil byte, c_ext c && rsv1 f)) in *.
+    pose proof (m_frame _ _ _ _ _ _ _ _ HM) as Hfr1.
+    pose proof (m_src _ _ _ _ _ _ _ _ HM) as (Hw1 & _ & _).
+    assert (Hflen: (length (flat (r_src r1)) + 3 <= fuel)%nat) by (clear -Hlen Hfuel; lia).
+    destruct (next_act pat all) as [a pat'] eqn:Ena.
+    assert (Hfst: fst (next_act pat all) = a) by (rewrite Ena; reflexivity).
+    assert (Hsnd: snd (next_act pat all) = pat') by (rewrite Ena; reflexivity).
+    destruct a.
+    + (* the caller reads the message *)
+      assert (Hmu: (mu r1 < S fuel)%nat) by (unfold mu; rewrite Hfr1; clear -Hflen; lia).
+      destruct (read_to_eof_specS c Hc (S fuel) (MMid m f [] (sf_payload f)) lg rest r1
+                  bufs bufs [] HM eq_refl Hmu) as (p & e2 & r2 & Hrte & Hres).
+      rewrite Hrte. cbn [mspec mmsg] in Hres.
+      destruct Hres as [(-> & mid & rest' & HB' & Hcp & Hle & Hmid & Hsp2)|(Hne & Hsp2)];
+        [|exfalso; apply (Hsp2 k evs); exact Hclean].
+      destruct (Hsp2 k evs) as (k' & Heq). rewrite Heq in Hclean |- *.
+      pose proof (b_src _ _ _ _ _ HB') as (_ & _ & Hfl').
+      apply IH with (lg := (lg ++ mid) ++ [mkEv (h_op h) p false (r_compressed r2)]).
+      * rewrite <- (b_log _ _ _ _ _ HB'). exact (Bnd_set_log c (lg ++ mid) _ rest' r2 HB').
+      * exact Hclean.
+      * rewrite <- Hfl'. clear -Hle Hflen. lia.
+      * rewrite app_assoc, <- Hsnd. apply PM_read; [exact Hfst|reflexivity| |apply PM_inter; assumption].
+        rewrite Hop. unfold m. cbn [m_op m_comp fst snd]. apply ev_matches_same.
+        destruct Hcp as [Hcp|Hcp]; [left; symmetry; exact Hcp|right; split; [exact Hcp|reflexivity]].
+    + (* the caller discards it at once *)
+      pose proof (discard_spec c Hc (S (length (flat (r_src r1)))) (MMid m f [] (sf_payload f)) lg rest r1
+                    (r_frame r1) (r_u8state r1) k evs HM ltac:(intros; discriminate) ltac:(clear; lia) Hclean) as D.
+      rewrite with_fix_id in D. destruct D as (k' & mid & ev & rest' & r2 & Hd & HB' & Hmid & Hev & Heq & Hle).
+      rewrite Hd. cbn [mspec] in Heq. rewrite Heq in Hclean |- *.
+      pose proof (b_src _ _ _ _ _ HB') as (_ & _ & Hfl').
+      apply IH with (lg := lg ++ mid).
+      * exact HB'.
+      * exact Hclean.
+      * rewrite <- Hfl'. clear -Hle Hflen. lia.
+      * rewrite app_assoc, <- Hsnd. apply PM_discard; [exact Hfst|exact Hev|apply PM_inter; assumption].
+    + (* the caller reads one buffer, then discards the rest *)
+      pose proof (next_buf_pos bufs bufs) as Hkk.
+      destruct (next_buf bufs bufs) as [kk bufs']. cbn [fst] in Hkk.
+      destruct (read_stepS c (MMid m f [] (sf_payload f)) lg rest r1 kk Hc HM Hkk)
+        as [(d & r' & st' & mid & rest1 & Hr & Hinv' & _ & _ & _ & Hmu' & Hmid & Hsp1)
+           |[(d & r' & rest1 & Hr & HB' & Hcp & Hle & Hsp1)|(d & err & r' & Hr & Hne & Hsp1)]]; rewrite Hr.
+      * destruct (Hsp1 k evs) as (k1 & Heq1). cbn [mspec] in Heq1. rewrite Heq1 in Hclean |- *.
+        assert (Hraw: forall m0, st' = MBet m0 -> r_rawN r' = 0).
+        { intros m0 ->. cbn [minv] in Hinv'. pose proof (b_msg _ _ _ _ _ Hinv') as (Hfr' & _).
+          rewrite reader_read_eq, Hfr1 in Hr. exact (rgo_rawN kk r1 d r' Hw1 Hkk Hfr1 Hr Hfr'). }
+        pose proof (discard_spec c Hc (S (length (flat (r_src r')))) st' (lg ++ mid) rest1 r'
+                      (r_frame r') (r_u8state r') k1 (evs ++ mid) Hinv' Hraw ltac:(clear; lia) Hclean) as D.
+        rewrite with_fix_id in D. destruct D as (k' & mid2 & ev & rest' & r2 & Hd & HB' & Hmid2 & Hev & Heq & Hle).
+        rewrite Hd. rewrite Heq in Hclean |- *.
+        pose proof (b_src _ _ _ _ _ HB') as (_ & _ & Hfl').
+        pose proof (mu_le _ _ Hmu') as Hle'.
+        apply IH with (lg := (lg ++ mid) ++ mid2).
+        -- exact HB'.
+        -- exact Hclean.
+        -- rewrite <- Hfl'. clear -Hle Hle' Hflen. lia.
+        -- rewrite (app_assoc (evs ++ mid)), <- Hsnd.
+           apply PM_partial_skip; [exact Hfst|exact Hev|]. apply PM_inter; [assumption|]. apply PM_inter; assumption.
+      * destruct (Hsp1 k evs) as (k' & Heq). cbn [mspec mmsg mdeliv] in Heq. rewrite Heq in Hclean |- *.
+        pose proof (b_src _ _ _ _ _ HB') as (_ & _ & Hfl').
+        apply IH with (lg := lg ++ [mkEv (h_op h) d false (r_compressed r')]).
+        -- rewrite <- (b_log _ _ _ _ _ HB'). exact (Bnd_set_log c lg _ rest1 r' HB').
+        -- exact Hclean.
+        -- rewrite <- Hfl'. clear -Hle Hflen. lia.
+        -- rewrite <- Hsnd. apply PM_partial_fin; [exact Hfst|reflexivity| |exact HPM].
+           rewrite Hop. unfold m. cbn [m_op m_acc m_comp fst snd app]. apply ev_matches_same.
+           destruct Hcp as [Hcp|Hcp]; [left; symmetry; exact Hcp|right; split; [exact Hcp|reflexivity]].
+      * exfalso. apply (Hsp1 k evs). exact Hclean.
+Qed.
+
+(* C04 for callers that skip messages: on a valid complete stream the loop ends
+   with a clean io.EOF whatever the caller does with each message, every
+   intermediate control frame is handed to the callback, and the messages
+   delivered are exactly the ones the caller read, with exactly their bytes:
+   nothing of a discarded or half-read message leaks into a later one *)
+Theorem discard_patterns : forall c fs s bufs pat fuel,
+  wf_cfg c -> Forall wf_sframe fs -> sr_out (spec_run c 0 None [] fs) = OClean ->
+  wf_src s -> tl s = TEOF -> flat s = wire fs -> (length (wire fs) + 2 <= fuel)%nat ->
+  let d := drive_pat fuel bufs pat pat
+             (new_reader s (c_state c) false (c_check_utf8 c) (c_max c) (c_ext c) CbReadAll) in
+  pat_monitor c pat fs (dr_events d) (dr_err d) = true.
+Proof.
+  intros c fs s bufs pat fuel Hc Hfs Hclean Hw Ht Hfl Hfuel. cbv zeta.
+  destruct (drive_pat_spec c bufs pat pat Hc fuel fs pat 0%nat [] [] _
+              (new_reader_bnd c fs s Hc Hfs Hw Ht Hfl) Hclean Hfuel ltac:(intros spec' obs' H; exact H)) as [H1 H2].
+  unfold pat_monitor. rewrite H1, H2. reflexivity.
+Qed.
